@@ -9,7 +9,8 @@
               (the harness maps the tokens to real ASCII names, "fancy" has spaces, comma, quote, '#', brackets)
      wsKey    value of the `workspace_dir` entry ("" = no entry): "workspace" | "custom" | "nested"
      dirs     what stands at each candidate workspace location:  "absent" | "jobs" (the directory that holds
-              the job directories) | "stray" (an unrelated directory with a file in it)
+              the job directories) | "stray" (an unrelated directory with a file in it) | "empty" (an empty
+              directory, as created by opening a project that had no 'workspace')
      dataDir  the parent directory of the nested custom workspace exists
      cache / hist   "none" | "root" (.signac_sp_cache.json.gz / .signac_shell_history) | "dot" (.signac/...)
      njobs    number of jobs (each with a fixed state point, optional document and files - a table in the harness)
@@ -25,7 +26,14 @@
      CAL_NoLegacyFile  migrating a .signac/config that declares (or defaults to) a version below 2 is not a
                        legacy layout signac ever wrote: RuntimeError, nothing changed.
      CAL_NullBump      a failing 1 -> 2 step leaves the version already bumped to 1 by the 0 -> 1 step.
-     CAL_DataDir       the emptied parent of a nested custom workspace stays behind.                      *)
+     CAL_DataDir       the emptied parent of a nested custom workspace stays behind.
+     CAL_OpenCreatesWorkspace  successfully opening an up-to-date project that has no 'workspace' directory
+                       creates an empty one (and nothing else); a REFUSED open creates nothing.
+
+   Histories: Project/get_project/init_project is one step.  apply_migrations is the chain; afterwards the
+   history continues: if it was refused because of a colliding 'workspace', the collision is resolved (the stray
+   directory removed) and the migration run again - it must then succeed with everything preserved
+   (CollisionRecoverable); otherwise it is simply run again (SecondNoop); finally the project is opened.    *)
 EXTENDS Naturals, Sequences, FiniteSets, TLC, Json, IOUtils, SequencesExt
 
 CONSTANTS NJ,       \* set of job counts, subset of 0..5
@@ -53,11 +61,15 @@ RcLayouts ==
     njobs |-> n, pdocUser |-> ux[1], pdocName |-> "", cfgExtra |-> ux[2], lock |-> FALSE]
    : v \in {"absent", "0", "1", "3", "10"}, nm \in {"None", "plain", "fancy"}, w \in WsOptions,
      ch \in Bools(TRUE), n \in NJ, ux \in Bools(TRUE)}
+CfgWs ==   \* current-layout projects: with their workspace, or WITHOUT any 'workspace' directory (the job directories
+           \* then sit in a custom-named data directory the configuration does not mention; only with >= 1 job)
+  {Dirs("jobs", "absent", "absent"), Dirs("absent", "jobs", "absent")}
 CfgLayouts ==
-  {[where |-> "cfg", ver |-> v, name |-> "", wsKey |-> "", dirs |-> Dirs("jobs", "absent", "absent"), dataDir |-> FALSE,
-    cache |-> IF ch[1] THEN "dot" ELSE "none", hist |-> IF ch[2] THEN "dot" ELSE "none",
-    njobs |-> n, pdocUser |-> ux[1], pdocName |-> pn, cfgExtra |-> ux[2], lock |-> FALSE]
-   : v \in Vers, ch \in Bools(TRUE), n \in NJ, ux \in Bools(TRUE), pn \in {"", "plain"}}
+  {l \in {[where |-> "cfg", ver |-> v, name |-> "", wsKey |-> "", dirs |-> d, dataDir |-> FALSE,
+            cache |-> IF ch[1] THEN "dot" ELSE "none", hist |-> IF ch[2] THEN "dot" ELSE "none",
+            njobs |-> n, pdocUser |-> ux[1], pdocName |-> pn, cfgExtra |-> ux[2], lock |-> FALSE]
+           : v \in Vers, ch \in Bools(TRUE), n \in NJ, ux \in Bools(TRUE), pn \in {"", "plain"}, d \in CfgWs}
+      : l.dirs.workspace = "jobs" \/ l.njobs > 0}
 FileIn  == IF MODE = "file" THEN ndJsonDeserialize(IOEnv.CASES_FILE) ELSE <<>>
 Layouts == IF MODE = "file" THEN {FileIn[i].l0 : i \in 1..Len(FileIn)} ELSE RcLayouts \cup CfgLayouts
 
@@ -71,6 +83,10 @@ Colliding(l) == l.wsKey \in {"custom", "nested"} /\ l.dirs.workspace # "absent"
 
 \* the gate: every way of opening refuses anything but the supported version, and never writes
 Gate(l) == IF UpToDate(l) THEN "ok" ELSE "IncompatibleSchemaVersion"
+\* the only thing a successful open may do to the directory (CAL_OpenCreatesWorkspace); a refused open does nothing
+OpenEffect(l) == IF UpToDate(l) /\ l.dirs.workspace = "absent" THEN [l EXCEPT !.dirs.workspace = "empty"] ELSE l
+\* resolving a collision by hand: the stray 'workspace' directory is removed
+Resolved(l) == [l EXCEPT !.dirs.workspace = "absent"]
 
 \* one step of apply_migrations.  s = [pc, L, res]
 Step(s) ==
@@ -110,7 +126,7 @@ Init == /\ l0 \in Layouts /\ op \in Ops
         /\ s = [pc |-> "start", L |-> l0, res |-> "ok"] /\ round = 1 /\ mid = l0
 
 OpenOp == /\ op \in OpenOps /\ s.pc = "start"
-          /\ s' = [s EXCEPT !.pc = "done", !.res = Gate(s.L)]
+          /\ s' = [s EXCEPT !.pc = "done", !.res = Gate(s.L), !.L = OpenEffect(s.L)]
           /\ UNCHANGED <<l0, op, round, mid>>
 Frame == UNCHANGED <<l0, op, round, mid>>
 Lock       == op = "migrate" /\ s.pc = "start" /\ s' = Step(s) /\ Frame
@@ -124,31 +140,37 @@ MoveCfg    == op = "migrate" /\ s.pc = "m12_cfgmove" /\ s' = Step(s) /\ Frame
 MoveFiles  == op = "migrate" /\ s.pc = "m12_files" /\ s' = Step(s) /\ Frame
 Bump2      == op = "migrate" /\ s.pc = "bump2" /\ s' = Step(s) /\ Frame
 Unlock     == op = "migrate" /\ s.pc = "unlock" /\ s' = Step(s) /\ Frame
-\* migrate a second time, then open
-Again      == /\ op = "migrate" /\ s.pc = "done" /\ round = 1
+\* the history continues: resolve a collision by hand and migrate again / simply migrate again; then open
+NeedsResolve == s.res = "RuntimeError" /\ Legacy(l0) /\ Colliding(s.L)
+ResolveCollision == /\ op = "migrate" /\ s.pc = "done" /\ round = 1 /\ NeedsResolve
+                    /\ s' = [pc |-> "start", L |-> Resolved(s.L), res |-> "ok"] /\ round' = 2 /\ mid' = Resolved(s.L)
+                    /\ UNCHANGED <<l0, op>>
+Again      == /\ op = "migrate" /\ s.pc = "done" /\ round = 1 /\ ~NeedsResolve
               /\ s' = [pc |-> "start", L |-> s.L, res |-> "ok"] /\ round' = 2 /\ mid' = s.L
               /\ UNCHANGED <<l0, op>>
 OpenAfter  == /\ op = "migrate" /\ s.pc = "done" /\ round = 2
-              /\ s' = [s EXCEPT !.pc = "opened", !.res = Gate(s.L)] /\ round' = 3
+              /\ s' = [s EXCEPT !.pc = "opened", !.res = Gate(s.L), !.L = OpenEffect(s.L)] /\ round' = 3
               /\ UNCHANGED <<l0, op, mid>>
 Next == OpenOp \/ Lock \/ Collect \/ Null01 \/ Bump1 \/ MoveWs \/ NameToDoc \/ RewriteCfg \/ MoveCfg
-        \/ MoveFiles \/ Bump2 \/ Unlock \/ Again \/ OpenAfter
+        \/ MoveFiles \/ Bump2 \/ Unlock \/ Again \/ ResolveCollision \/ OpenAfter
 
 ---------------------------------------------------------------------------
 (* requirements *)
 JobsSomewhere(l) == Cardinality({w \in WsLocs : l.dirs[w] = "jobs"}) = 1
 TypeOK == /\ s.L.ver \in Vers /\ s.L.where \in {"rc", "cfg"} /\ s.L.njobs \in 0..5
-          /\ \A w \in WsLocs : s.L.dirs[w] \in {"absent", "jobs", "stray"}
+          /\ \A w \in WsLocs : s.L.dirs[w] \in {"absent", "jobs", "stray", "empty"}
           /\ s.res \in {"ok", "IncompatibleSchemaVersion", "RuntimeError"}
 \* in EVERY state, also between the sub-steps: the job directories exist in exactly one place, untouched
 JobsNeverLost == JobsSomewhere(s.L) /\ s.L.njobs = l0.njobs /\ s.L.pdocUser = l0.pdocUser
-\* Refuse: the gate raises iff the version is not the supported one, and the layout is unchanged
+\* Refuse: the gate raises iff the version is not the supported one; a refused project is not modified AT ALL
+\* (no entry, file or directory - also no empty 'workspace' - appears); a successful open does OpenEffect only
 Refuse == op \in OpenOps /\ s.pc = "done" =>
             /\ (s.res = "IncompatibleSchemaVersion") <=> ~UpToDate(l0)
             /\ s.res # "IncompatibleSchemaVersion" => s.res = "ok"
-            /\ s.L = l0
+            /\ s.res = "IncompatibleSchemaVersion" => s.L = l0
+            /\ s.res = "ok" => s.L = OpenEffect(l0)
 CurL == s.L
-RefuseFrame == [][(op \in OpenOps) => CurL' = CurL]_vars
+RefuseFrame == [][(op \in OpenOps /\ ~UpToDate(l0)) => CurL' = CurL]_vars
 \* MigratePreserves: a legacy project comes out up to date with the same jobs, name in the document, files carried
 Done1 == op = "migrate" /\ s.pc = "done" /\ round = 1
 MigratePreserves ==
@@ -160,17 +182,27 @@ MigratePreserves ==
     /\ s.L.cache = (IF l0.cache = "root" THEN "dot" ELSE l0.cache)
     /\ s.L.hist = (IF l0.hist = "root" THEN "dot" ELSE l0.hist)
     /\ s.L.name = "" /\ s.L.wsKey = "" /\ s.L.cfgExtra = l0.cfgExtra /\ ~s.L.lock
-\* the named failure: a colliding 'workspace' - the jobs stay where they were, nothing but the version entry changes
+\* the named failure: a colliding 'workspace'.  The refused migration leaves the WHOLE layout as it was - configuration
+\* file location and entries, project document, cache, history, every directory - except for the version entry the
+\* null step has already bumped (CAL_NullBump); and it is recoverable: after the stray directory is removed the next
+\* migration succeeds with everything preserved, exactly as if there had never been a collision.
 CollisionLeavesJobs ==
   Done1 /\ Legacy(l0) /\ Colliding(l0) =>
     /\ s.res = "RuntimeError" /\ s.L.dirs = l0.dirs
     /\ s.L = [l0 EXCEPT !.ver = IF Num(l0.ver) = 0 THEN "1" ELSE l0.ver]                    \* CAL_NullBump
+CollisionRecoverable ==
+  op = "migrate" /\ s.pc = "done" /\ round = 2 /\ Legacy(l0) /\ Colliding(l0) =>
+    /\ s.res = "ok" /\ s.L = RunMig(Resolved(l0)).L /\ UpToDate(s.L) /\ s.L.dirs.workspace = "jobs"
+    /\ s.L.njobs = l0.njobs /\ s.L.pdocUser = l0.pdocUser
+    /\ s.L.pdocName = (IF l0.name = "None" THEN l0.pdocName ELSE l0.name)
+    /\ s.L.cache = (IF l0.cache = "root" THEN "dot" ELSE l0.cache)
+    /\ s.L.hist = (IF l0.hist = "root" THEN "dot" ELSE l0.hist)
 \* newer versions and non-legacy files are refused by the migration as well, untouched
 MigrateRefuses == Done1 /\ ~Legacy(l0) /\ ~UpToDate(l0) => s.res = "RuntimeError" /\ s.L = l0
 UpToDateNoop   == Done1 /\ UpToDate(l0) => s.res = "ok" /\ s.L = l0
 \* a second migration never changes anything; afterwards the project opens iff the first one succeeded
-SecondNoop     == op = "migrate" /\ s.pc = "done" /\ round = 2 => s.L = mid
-OpensAfterwards == s.pc = "opened" /\ ((Legacy(l0) /\ ~Colliding(l0)) \/ UpToDate(l0)) => s.res = "ok"
+SecondNoop     == op = "migrate" /\ s.pc = "done" /\ round = 2 /\ ~(Legacy(l0) /\ Colliding(l0)) => s.L = mid
+OpensAfterwards == s.pc = "opened" /\ (Legacy(l0) \/ UpToDate(l0)) => s.res = "ok"
 LockHeld == (op = "migrate" /\ s.pc \notin {"start", "done", "opened"}) <=> s.L.lock
 CurVer == Num(s.L.ver)
 VersionMonotone == [][CurVer' >= CurVer]_vars
@@ -180,10 +212,13 @@ ChainIsFunction == Done1 => s = RunMig(l0)
 (* export: (layout, operation) -> expected outcome and expected layouts *)
 CaseOf(l, o) ==
   IF o \in OpenOps
-  THEN [l0 |-> l, op |-> o, res |-> Gate(l), post |-> l, res2 |-> "", post2 |-> l, open |-> ""]
+  THEN [l0 |-> l, op |-> o, res |-> Gate(l), post |-> OpenEffect(l), resolved |-> FALSE, res2 |-> "", post2 |-> l,
+        open |-> "", openjobs |-> 0, post3 |-> l]
   ELSE LET a == RunMig(l)
-           b == RunMig(a.L)
-       IN [l0 |-> l, op |-> o, res |-> a.res, post |-> a.L, res2 |-> b.res, post2 |-> b.L, open |-> Gate(b.L)]
+           fix == a.res = "RuntimeError" /\ Legacy(l) /\ Colliding(a.L)
+           b == RunMig(IF fix THEN Resolved(a.L) ELSE a.L)
+       IN [l0 |-> l, op |-> o, res |-> a.res, post |-> a.L, resolved |-> fix, res2 |-> b.res, post2 |-> b.L,
+           open |-> Gate(b.L), openjobs |-> IF b.L.dirs.workspace = "jobs" THEN b.L.njobs ELSE 0, post3 |-> OpenEffect(b.L)]
 Export == /\ TLCGet("level") >= 0
           /\ IF MODE = "file"
              THEN ndJsonSerialize(IOEnv.CASES_OUT, [i \in 1..Len(FileIn) |-> CaseOf(FileIn[i].l0, FileIn[i].op)])
